@@ -998,3 +998,117 @@ def rule_c18_owner(r):
                                 "the next builder recreates under the same name" % bad)
     if n_sites < 4:
         raise AnalysisError("R-C18-owner: only %d file-removing call sites found (anchor moved?)" % n_sites)
+
+
+# --------------------------------------------------------------------------------------------- C15: converted sources, token by token
+_TOK = None
+
+
+def c_lex(text):
+    """C tokens of `text` (comments and white space dropped): [(kind, spelling)] with kind in str/num/id/punct.  `num` is a C
+    preprocessing number."""
+    global _TOK
+    import re
+    if _TOK is None:
+        _TOK = re.compile(r"""
+            (?P<ws>\s+)
+          | (?P<comment>/\*.*?\*/|//[^\n]*)
+          | (?P<str>"(?:\\.|[^"\\\n])*"|'(?:\\.|[^'\\\n])*')
+          | (?P<num>\.?\d(?:[eEpP][+-]|[\w.])*)
+          | (?P<id>[A-Za-z_]\w*)
+          | (?P<punct>\#\#|<<=|>>=|\.\.\.|->|\+\+|--|<<|>>|<=|>=|==|!=|&&|\|\||[-+*/%&|^]=|.)
+        """, re.X | re.S)
+    return [(m.lastgroup, m.group()) for m in _TOK.finditer(text) if m.lastgroup not in ("ws", "comment")]
+
+
+def rule_c15_tokens(r):
+    """For every compiled model the generator's dll source is converted by generate.convert_type to single, double and long
+    double precision (generator step, text only); each converted text is lexed as C and compared, token by token, with the
+    token stream the property prescribes for the unconverted text: `#define FLOAT_SIZE n` in front; every decimal floating
+    constant without suffix (C99 6.4.4.2) gets the suffix; identifiers double / doubleN / cdouble[N] become the type name;
+    an integer constant that is the first argument of a type-generic math call becomes `<int>.<suffix>`; every other token
+    is identical."""
+    import re
+    from .. import cfront
+    DECFLOAT = re.compile(r"^(?:(?:\d+\.\d*|\.\d+)(?:[eE][+-]?\d+)?|\d+[eE][+-]?\d+)$")
+    INT = re.compile(r"^(?:0|[1-9]\d*)$")
+    TG = re.compile(r"^(a?(sin|cos|tan)h?|atan2|erfc?|tgamma|exp(2|10|m1)?|log(2|10|1p)?|pow[nr]?|sqrt|rsqrt|rootn|fabs|fmax|fmin)$")
+    KW = re.compile(r"^c?double([248]|16)?$")
+    idx = cfront.generate_units()
+    TAGS = {"f32": ("float", "f", 4), "f64": (None, "", 8), "f128": ("long double", "L", 16)}
+    totals = {"literals": 0, "keywords": 0, "promotions": 0}
+    for name, meta in sorted(idx["models"].items()):
+        if meta.get("kind") != "c":
+            continue
+        with open(meta["unit"]) as fd:
+            raw = c_lex(fd.read())
+        conv = meta.get("conv") or {}
+        if "f32" not in conv or "f64" not in conv:
+            raise AnalysisError("generator wrote no converted sources for %s" % name)
+        for tag, (tn, flag, size) in sorted(TAGS.items()):
+            if tag not in conv:
+                continue        # long double is not available on every platform's numpy
+            with open(conv[tag]) as fd:
+                got = c_lex(fd.read())
+            exp = [("punct", "#"), ("id", "define"), ("id", "FLOAT_SIZE"), ("num", str(size))]
+            for i, (k, t) in enumerate(raw):
+                if k == "num" and DECFLOAT.match(t):
+                    exp.append((k, t + flag))
+                    totals["literals"] += 1
+                elif k == "num" and INT.match(t):
+                    j = i - 1
+                    if j >= 0 and raw[j] in (("punct", "+"), ("punct", "-")):
+                        j -= 1
+                    if j >= 1 and raw[j] == ("punct", "(") and raw[j - 1][0] == "id" and TG.match(raw[j - 1][1]) \
+                            and i + 1 < len(raw) and raw[i + 1][1] in (",", ")"):
+                        exp.append((k, t + "." + flag))
+                        totals["promotions"] += 1
+                    else:
+                        exp.append((k, t))
+                elif k == "id" and tn and KW.match(t):
+                    exp.extend(c_lex(t.replace("double", tn)))
+                    totals["keywords"] += 1
+                else:
+                    exp.append((k, t))
+            diff = None
+            if exp != got:
+                for n_, (a, b) in enumerate(zip(exp, got)):
+                    if a != b:
+                        ctx = " ".join(t for _, t in got[max(0, n_ - 4):n_ + 3])
+                        diff = "token %d: expected `%s`, converted source has `%s` (near: %s)" % (n_, a[1], b[1], ctx[:80])
+                        break
+                else:
+                    diff = "token count differs: expected %d, converted source has %d" % (len(exp), len(got))
+            r.check(diff is None, "sasmodels/generate.py", "convert_type", "%s -> %s: %d tokens" % (name, tag, len(got)), 0,
+                    "only floating keywords and constants differ from the double-precision source" if diff is None else diff)
+    if totals["literals"] < 1000 or totals["keywords"] < 1000:
+        raise AnalysisError("token rule saw only %s conversions" % totals)
+
+
+def f32_unit(unit, extra):
+    """Worker: the single-precision OpenCL source of the unit parsed (by clang's OpenCL front end): every function of the
+    double-precision unit is there."""
+    return sorted(n for n, f in unit.functions.items() if unit.body(f) is not None)
+
+
+def rule_c15_builds(r):
+    """The single-precision OpenCL source of every model (the default GPU precision) is accepted by clang's OpenCL front end
+    and defines the same functions as the double-precision source: a constant or keyword mangled by the conversion (`x1e3f`,
+    `floatfoo`) is an undeclared identifier or a syntax error here."""
+    from .. import cfront
+    try:
+        f32 = cfront.map_units("sa.rules.extra3:f32_unit", config="opencl-f32")
+    except AnalysisError as exc:
+        msg = str(exc)
+        if "clang failed" in msg:
+            r.violation("sasmodels/generate.py", "convert_type", "single-precision OpenCL source parses", 0, msg[:300])
+            return
+        raise
+    f64 = cfront.map_units("sa.rules.extra3:f32_unit", config="opencl")
+    for name, fns in sorted(f32.items()):
+        base = name.split("@")[0]
+        ref = f64.get(base + "@opencl")
+        # FLOAT_SIZE-conditional library code legitimately selects other helpers (cephes_j1 / cephes_j1f)
+        missing = [f for f in (ref or []) if f not in fns and f + "f" not in fns]
+        r.check(ref is not None and not missing, "sasmodels/generate.py", "convert_type", "%s: %d functions in the single-precision unit" % (base, len(fns)), 0,
+                "same functions as the double-precision unit" if not missing else "missing after conversion: %s" % missing[:5])
